@@ -367,6 +367,9 @@ func runC12(tier string) int {
 		ct := pos.contents[0]
 		key := "V"
 		if variant >= 2 {
+			if word[0] >= '0' && word[0] <= '9' {
+				return // a switch key is an identifier: numbers are case labels and -s values only
+			}
 			key = word
 		}
 		c0, c1 := word+": "+fill(ct.src, 0), "_: "+fill(ct.src, 1)
@@ -475,7 +478,7 @@ func runC12(tier string) int {
 		"where the written-out program is ill-formed (a continue that is not last), the poryswitch program must be rejected as well",
 		"line markers off; all switch keys defined; the file also defines constants named like case labels and switch values")
 	return r.Finish(r.Get("evaluations"), r.Get("nontrivial"),
-		"every poryswitch with 1-3 distinct case labels from {A, B, 1, _} in every order x colon/brace form per case x every content assignment (11-13 statement contents incl. one literal formatted under different parameters in different cases, inline texts, typed texts, labels, control flow, nested poryswitches; 8 text contents incl. typed, formatted (also one literal under three parameter sets) and multi-part; 7 movement and 6 mart contents incl. nested poryswitches, multipliers, terminators) in 9 positions (statement, in if, in loop, in a switch case of a loop before further cases, in inline map script, text, movement, moves(), mart) x -s value in {A, B, 1, non-matching, empty}; plus poryswitches with K cases for every K up to the bound in the coverage in every position with the first / middle / last case or '_' selected; also marts, movements and moves() with K elements before the poryswitch for every K up to a bound, each case selected; also every identifier-like literal of the compiler's own source as case label, -s value and switch key in every position; also every program of the control-flow families (C01 / C03 / C04 bounds) with its whole body, every block, or one top-level statement moved into the selected case (brace and colon form, selected directly and through '_'); output compared byte for byte with the program in which the selected case is written out; non-trivial = >= 2 cases")
+		"every poryswitch with 1-3 distinct case labels from {A, B, 1, _} in every order x colon/brace form per case x every content assignment (11-13 statement contents incl. one literal formatted under different parameters in different cases, inline texts, typed texts, labels, control flow, nested poryswitches; 8 text contents incl. typed, formatted (also one literal under three parameter sets) and multi-part; 7 movement and 6 mart contents incl. nested poryswitches, multipliers, terminators) in 9 positions (statement, in if, in loop, in a switch case of a loop before further cases, in inline map script, text, movement, moves(), mart) x -s value in {A, B, 1, non-matching, empty}; plus poryswitches with K cases for every K up to the bound in the coverage in every position with the first / middle / last case or '_' selected; also marts, movements and moves() with K elements before the poryswitch for every K up to a bound, each case selected; also every identifier-like literal of the compiler's own source and numbers in non-canonical spellings (0x10, 007, 010, 00, 0x1f next to 16, 7, 31; as case label and -s value, not as key) as case label, -s value and switch key in every position; also every program of the control-flow families (C01 / C03 / C04 bounds) with its whole body, every block, or one top-level statement moved into the selected case (brace and colon form, selected directly and through '_'); output compared byte for byte with the program in which the selected case is written out; non-trivial = >= 2 cases")
 }
 
 // c12Wrappings rewrites a printed single-script program (one statement per line, tab indentation) so that
